@@ -728,9 +728,141 @@ def correspond_typedefs(ctx, corr):
                                            what="typedef statement `%s`: %s" % (' '.join(toks), msg)))
 
 
+TP_DEFAULTS = [['int'], ['std', '::', 'vector', '<', 'int', '>'], ['void'], ['3'], ['(', 'a', '>', 'b', ')'], ['f', '(', '1', ',', '2', ')'],
+               ['X', '<', 'Y', '<', 'int', '>', ',', '2', '>']]
+
+
+def gen_tparams(rng, depth=0):
+    """(tokens incl. '<' '>', expected list) of a template parameter list"""
+    toks, exp = ['<'], []
+    n = rng.choice([0, 1, 1, 2, 3])
+    for i in range(n):
+        if i:
+            toks.append(',')
+        r = rng.random()
+        if r < 0.55:
+            inner = None
+            if depth < 2 and rng.random() < 0.2:
+                itoks, inner = gen_tparams(rng, depth + 1)
+                toks += ['template'] + itoks
+            key = rng.choice(['class', 'typename'])
+            pack = rng.random() < 0.2
+            name = rng.choice([None, 'T%d' % i])
+            default = None
+            if not pack and rng.random() < 0.3:
+                default = list(rng.choice(TP_DEFAULTS))
+            toks += [key] + (['...'] if pack else []) + ([name] if name else []) + (['='] + default if default else [])
+            exp.append(('type', key, pack, name, tuple(default) if default else None, inner))
+        else:
+            while True:
+                t = decl.rand_type(rng, rng.choice([0, 0, 1, 2]))
+                if decl.var_ok(t) and t[0] != 'F':
+                    break
+            name = rng.choice([None, 'N%d' % i])
+            toks += decl.print_decl(t, name)
+            exp.append(('nontype', t, name))
+    toks.append('>')
+    return toks, exp
+
+
+def real_tparams(toks):
+    try:
+        d = parse_string('template ' + ' '.join(toks) + ' struct S_ ;')
+    except (impl.CxxParseError, AssertionError, RecursionError):
+        return ('err',)
+    ns = d.namespace
+    if len(ns.forward_decls) != 1 or ns.forward_decls[0].template is None or isinstance(ns.forward_decls[0].template, list):
+        return ('other',)
+
+    def conv(td):
+        out = []
+        for p in td.params:
+            if isinstance(p, T.TemplateTypeParam):
+                out.append(('type', p.typekey, p.param_pack, p.name, None if p.default is None else tuple(t.value for t in p.default.tokens),
+                            None if p.template is None else conv(p.template)))
+            else:
+                if p.default is not None or p.param_pack:
+                    raise decl.Unrepresentable("non-type extras")
+                out.append(('nontype', decl.from_real(p.type), p.name))
+        return out
+    try:
+        return ('ok', conv(ns.forward_decls[0].template))
+    except decl.Unrepresentable:
+        return ('other',)
+
+
+def dec_tparams(o, i, k, names):
+    out = []
+    for _ in range(k):
+        if o[i] == 1:
+            key, pack, nm = impl.TT[o[i + 1]], bool(o[i + 2]), (None if o[i + 3] == 0 else names.rev[o[i + 3] - 1])
+            j = i + 4
+            if o[j] == 0:
+                default, j = None, j + 1
+            else:
+                cnt = o[j + 1]
+                default = tuple(names.rev[o[j + 2 + 2 * q + 1]] if o[j + 2 + 2 * q + 1] else impl.TT[o[j + 2 + 2 * q]] for q in range(cnt))
+                j = j + 2 + 2 * cnt
+            if o[j] == 0:
+                inner, j = None, j + 1
+            else:
+                inner, j = dec_tparams(o, j + 2, o[j + 1], names)
+            out.append(('type', key, pack, nm, default, inner))
+            i = j
+        else:
+            nm = None if o[i + 1] == 0 else names.rev[o[i + 1] - 1]
+            ln = o[i + 2]
+            t, _ = decl.dec_type(o, i + 3, names)
+            out.append(('nontype', t, nm))
+            i = i + 3 + ln
+    return out, i
+
+
+def correspond_tparams(ctx, corr):
+    """template parameter lists: extracted tdecl vs the template header the implementation reports"""
+    rng = ctx.rng
+    cases = []
+    for _ in range(ctx.scale(700, 14000)):
+        toks, exp = gen_tparams(rng)
+        cases.append((toks, exp))
+        if rng.random() < 0.35:
+            mt = c02.mutate(rng, toks[1:-1])
+            cases.append((['<'] + mt + ['>'], None))
+    lines, nms = [], []
+    for toks, _ in cases:
+        names = decl.Names()
+        lines.append([96] + decl.enc_tokens(toks + ['struct', 'S_', ';'], names))
+        nms.append(names)
+    outs = run_driver(lines)
+    for (toks, exp), o, names in zip(cases, outs, nms):
+        corr.cases += 1
+        if o[0] == 0:
+            lst, _ = dec_tparams(o, 3, o[2], names)
+            m = ('ok', lst, o[1])
+        else:
+            m = ('err', o[1])
+        r = real_tparams(toks)
+        key = "tparams:" + (m[0] if m[0] == 'ok' else 'err%d' % m[1]) + "/" + r[0]
+        corr.dist[key] = corr.dist.get(key, 0) + 1
+        msg = None
+        if m[0] == 'ok' and m[2] == 3:
+            if r[0] == 'err':
+                msg = "model decodes the parameter list but the implementation rejects it"
+            elif r[0] == 'ok' and r[1] != m[1]:
+                msg = "model %s; implementation %s" % (m[1], r[1])
+        elif m[0] == 'err' and m[1] in (1, 2, 3) and r[0] == 'ok':
+            msg = "model rejects (code %d) but the implementation reports %s" % (m[1], r[1])
+        if msg is None and exp is not None and (m[0] != 'ok' or m[1] != exp):
+            msg = "model does not decode the printed parameter list (got %s)" % (m,)
+        if msg:
+            corr.disagreements.append(dict(case=dict(kind='corr-tparams', tokens=toks), model=str(m)[:300], impl=str(r)[:300],
+                                           what="template parameters `%s`: %s" % (' '.join(toks), msg)))
+
+
 def correspond(ctx):
     corr = Corr()
     rng = ctx.rng
+    correspond_tparams(ctx, corr)
     correspond_typedefs(ctx, corr)
     correspond_stmts_i(ctx, corr)
     correspond_fn_stmts(ctx, corr)
